@@ -366,7 +366,42 @@ class Sym(object):
         return b._div(a)
 
     def __pow__(a, b):
+        if isinstance(b, int) and not isinstance(b, bool) and 0 <= b <= 4:
+            out = lift(1)
+            for _ in range(b):
+                out = out * a
+            return out
         return ufun('upow', a, b)
+
+    def _finite(a, what):
+        if not _is0(a.k):
+            if not fork(kterm(a.k) == 0):
+                raise PathAbort(what + ' of an infinite value')
+
+    def __floor__(a):
+        a._finite('floor')
+        return Sym(0, z3.ToReal(z3.ToInt(a.r)))
+
+    def __ceil__(a):
+        a._finite('ceil')
+        return Sym(0, -z3.ToReal(z3.ToInt(-a.r)))
+
+    def __trunc__(a):
+        a._finite('trunc')
+        return Sym(0, z3.If(a.r >= 0, z3.ToReal(z3.ToInt(a.r)), -z3.ToReal(z3.ToInt(-a.r))))
+
+    def __floordiv__(a, b):
+        return (a / b).__floor__()
+
+    def __rfloordiv__(a, b):
+        return (lift(b) / a).__floor__()
+
+    def __mod__(a, b):
+        return a - (a / b).__floor__() * b
+
+    def __rmod__(a, b):
+        b = lift(b)
+        return b - (b / a).__floor__() * a
 
     def __repr__(a):
         k = a.k if isinstance(a.k, int) else z3.simplify(a.k)
@@ -475,14 +510,38 @@ class _MathShim(object):
         return f
 
 
-for _n in ('sqrt', 'exp', 'log', 'pow', 'fabs'):
+for _n in ('sqrt', 'exp', 'log', 'pow'):
     setattr(_MathShim, _n, staticmethod(_MathShim._mk(_n)))
+
+
+def _m_isinf(x):
+    if isinstance(x, Sym):
+        return False if _is0(x.k) else fork(kterm(x.k) != 0)
+    return _math.isinf(x)
+
+
+def _m_isnan(x):
+    return False if isinstance(x, Sym) else (x is NAN or _math.isnan(x))
+
+
+def _m_isfinite(x):
+    return (not _m_isinf(x)) if isinstance(x, Sym) else _math.isfinite(x)
+
+
+_MathShim.isinf = staticmethod(_m_isinf)
+_MathShim.isnan = staticmethod(_m_isnan)
+_MathShim.isfinite = staticmethod(_m_isfinite)
+_MathShim.fabs = staticmethod(lambda x: abs(x) if isinstance(x, Sym) else _math.fabs(x))
+_MathShim.floor = staticmethod(lambda x: x.__floor__() if isinstance(x, Sym) else _math.floor(x))
+_MathShim.ceil = staticmethod(lambda x: x.__ceil__() if isinstance(x, Sym) else _math.ceil(x))
+_MathShim.trunc = staticmethod(lambda x: x.__trunc__() if isinstance(x, Sym) else _math.trunc(x))
 MATH = _MathShim()
 
 _PATCHED = {}     # module name -> {attr: (had, old)}
 PATCH_MINMAX = True
 STUBS = ['min -> ITE term (first wins on ties)', 'max -> ITE term (first wins on ties)',
-         'float -> identity on symbolic values', 'math.sqrt/exp/log/pow -> uninterpreted functions']
+         'float -> identity on symbolic values', 'math.sqrt/exp/log/pow -> uninterpreted functions',
+         'math.floor/ceil/trunc/isinf/isnan/fabs, round(), bool(), //, %, ** small int -> exact term models on symbolic values']
 
 
 def patch_rtamt(minmax=True):
